@@ -215,14 +215,14 @@ Definition cg_save_extra (c : nat) : list field := [FN c].
 Definition cg_restore_extra (fs : list field) : option nat :=
   match fs with [FN c] => Some c | _ => None end.
 
-(* SteepestDescent::write at the pinned commit: m_path, m_learningRate, m_momentum only *)
+(* SteepestDescent::write before the repair c36da89f (finding F16): m_path, m_learningRate, m_momentum only *)
 Definition sd_save_coded (s : sd_state) : list field := [FV (sd_path s); FQ (sd_lr s); FQ (sd_mom s)].
 Definition sd_restore_coded (fresh : sd_state) (fs : list field) : option sd_state :=
   match fs with
   | [FV p; FQ l; FQ m] => Some (mkSD (sd_pt fresh) (sd_val fresh) (sd_der fresh) p l m)
   | _ => None
   end.
-(* the repaired list: additionally m_derivative and m_best *)
+(* the list as coded now: m_path, m_learningRate, m_momentum, m_derivative, m_best.point, m_best.value *)
 Definition sd_save_full (s : sd_state) : list field :=
   [FV (sd_path s); FQ (sd_lr s); FQ (sd_mom s); FV (sd_der s); FV (sd_pt s); FQ (sd_val s)].
 Definition sd_restore_full (fresh : sd_state) (fs : list field) : option sd_state :=
